@@ -60,7 +60,7 @@ MAKERS = {
     "tearfree_sketchy": tf(second_order.SecondOrderType.SKETCHY),
 }
 T_ = 6
-ks = (1, 2, 3) if tier == "quick" else (0, 1, 2, 3, 4, 5)
+ks = (2, 3) if tier == "quick" else (0, 1, 2, 3, 4, 5)
 modes = ("eager",) if tier == "quick" else ("eager", "jit")
 shapes = {"w": (8, 6), "b": (6,)}
 
